@@ -399,6 +399,8 @@ fn field_value(class: u8, raw: u32, width: u8) -> u32 {
         6 => max - 1,
         7 => raw % 361,
         8 => raw % 700,
+        // ASCII codes (button hot keys)
+        9 => [65, 98, 120, 32, 255][(raw % 5) as usize],
         _ => raw,
     };
     v % (max + 1)
@@ -429,7 +431,7 @@ fn text_tokens() -> BoxedStrategy<Vec<u8>> {
 pub fn seg_strategy() -> BoxedStrategy<RipSeg> {
     (
         (0u8..100, any::<u16>(), any::<u8>()),
-        vec((0u8..10, any::<u32>()), 24),
+        vec((0u8..11, any::<u32>()), 24),
         (0u8..14, any::<u8>(), any::<u16>()),
         text_tokens(),
         prop_oneof![6 => Just(0u8), 3 => Just(1u8), 1 => Just(2u8)],
